@@ -733,9 +733,45 @@ func runScenario(sc scenario) string {
 	return fmt.Sprintf("result=ok stop=%s | %s%s", stopRes, strings.Join(parts, " "), ho)
 }
 
+// hammer <mode> <rounds>: the drain-and-abort protocol on the real functions (overlay hook VerifDrainHammer).
+// Record: "result=ok handed=<h> aborted=<a> left=<l> open=<o> unanswered=<u>"; the model (Model/Drain.lean, theorem
+// quiescent_all_settled) predicts aborted = handed and nothing left, since nobody runs tasks here.
+func hammerFail(f string, a ...any) { util.Fail(fmt.Sprintf(f, a...)) }
+
+func runHammer(mode, rounds string) string {
+	n, _ := strconv.Atoi(rounds)
+	before := countFds()
+	res, err := gnet.VerifDrainHammer(mode, n)
+	if err != nil {
+		return "result=error " + strings.ReplaceAll(err.Error(), " ", "_")
+	}
+	if res.Left > 0 {
+		hammerFail("C07: drain protocol (%s): a registration was still in the task queue of the event loop after the loop had closed its connections and the hand-over had returned (round %d): its descriptor is never closed", mode, res.Rounds)
+	}
+	if res.Open > 0 {
+		hammerFail("C07: drain protocol (%s): the descriptor handed over in round %d was neither registered nor closed", mode, res.Rounds)
+	}
+	if res.Unanswered > 0 {
+		hammerFail("C19: drain protocol (%s): the registration of round %d never got its result", mode, res.Rounds)
+	}
+	if res.Errors > 0 {
+		hammerFail("C07: drain protocol (%s): %d rounds ended with an unexpected result", mode, res.Errors)
+	}
+	if res.Left == 0 && res.Open == 0 && res.Unanswered == 0 {
+		time.Sleep(20 * time.Millisecond)
+		if after := countFds(); after > before {
+			hammerFail("C07: drain protocol (%s): %d descriptors more are open after the rounds than before", mode, after-before)
+		}
+	}
+	return fmt.Sprintf("result=ok handed=%d aborted=%d left=%d open=%d unanswered=%d", res.Handed, res.Aborted, res.Left, res.Open, res.Unanswered)
+}
+
 func step(ws []string) string {
 	if ws[0] == "clife" {
 		return runClientLife(ws) + " @@="
+	}
+	if ws[0] == "hammer" && len(ws) == 3 {
+		return runHammer(ws[1], ws[2]) + " @@="
 	}
 	if ws[0] != "life" {
 		return "bad-op"
@@ -757,6 +793,17 @@ func main() {
 		r := util.NewRng(*seed)
 		var b strings.Builder
 		hist := map[string]int{}
+		if *only == "hammer" {
+			for i := 0; i < *cases; i++ {
+				m := []string{"loop", "accept0", "enroll"}[i%3]
+				rounds := map[string]int{"loop": 1500000, "accept0": 200000, "enroll": 100000}[m]
+				hist["hammer-"+m]++
+				fmt.Fprintf(&b, "case %d\nhammer %s %d\n", i, m, rounds)
+			}
+			os.Stdout.WriteString(b.String())
+			fmt.Fprintf(os.Stderr, "DIST %v\n", hist)
+			return
+		}
 		if *only != "" {
 			for i := 0; i < *cases; i++ {
 				m, proto := *only, "tcp"
